@@ -3,7 +3,9 @@
 evaluation results.  usage: build_seeded.py <round> <agents_dir> <results_dir>   (round 1: /tmp/mut /tmp/mut/results; round 3: /tmp/mut3 /tmp/mut3/results)"""
 import glob, json, os, re, shutil, sys
 
+import subprocess
 rnd, adir, rdir = sys.argv[1], sys.argv[2], sys.argv[3]
+BASE = subprocess.run(["git", "-C", "/repo", "rev-parse", "--short", "HEAD"], capture_output=True, text=True).stdout.strip()
 props = {json.loads(l)["id"]: json.loads(l) for l in open("/verif/properties.jsonl")}
 out_root = "/verif/seeded"
 os.makedirs(out_root, exist_ok=True)
@@ -34,11 +36,11 @@ for p in sorted(glob.glob(rdir + "/C*_*.json")):
     meta = {
         "id": sid, "breaks_property": pid, "property_title": props[pid]["title"], "origin": f"fresh sub-agent, round {rnd}, given only the property text and a scratch worktree",
         "summary": title, "needs_to_manifest": needs[:3] or ["see notes.md"],
-        "base_commit": r.get("base", "bf9fa7d" if rnd != "1" or True else ""),
+        "base_commit": BASE,
         "confirmed": {"how": "tools/eval_mutant.py in a scratch worktree of /repo (outside /repo and /verif)", "demo_on_clean_tree_rc": r.get("demo_clean_rc"),
                       "patch_applies": r.get("apply_rc") == 0, "test_suite_with_patch": r.get("tests"), "demo_with_patch_rc": r.get("demo_patched_rc"),
                       "demo_with_patch_says": r.get("demo_patched_tail", "")[-200:]},
-        "checks_run": "all 20 quick checks (./check Cxx --tier quick, VERIF_SEED=0) with YNCA_REPO=<scratch worktree with the patch applied>",
+        "checks_run": "all 20 quick checks (./check Cxx --tier quick, VERIF_SEED=0) with YNCA_REPO=<scratch worktree with the patch applied>, at the state of /verif when the change was delivered (before any strengthening it prompted); the official run against /repo itself with the final checks is in official_run.txt",
         "caught_by": caught, "caught_with_concrete_failing_input": sorted(set(caught) - set(noin)), "caught_as_broken_correspondence_only": noin,
         "caught_by_its_own_property_check": pid in caught,
         "replay": f"git -C /repo apply /verif/seeded/{sid}/patch.diff && (cd /verif && ./check {pid}); git -C /repo checkout -- .",
